@@ -241,9 +241,44 @@ def test_wasted_notify():
     return f'without flips {sorted(seen[False])}; with flips additionally {sorted(seen[True] - seen[False])}'
 
 
+def test_spinning():
+    """busy polling on something a sleeping thread will do terminates (time passes while spinning); polling on something that
+    never happens is reported as a livelock, not as an exhausted budget"""
+
+    def scenario(never):
+        def fn():
+            box = {'done': False}
+            lock = threading.Lock()
+
+            def worker():
+                time.sleep(0.5)
+                if not never:
+                    with lock:
+                        box['done'] = True
+
+            t = threading.Thread(target=worker)
+            t.start()
+            n = 0
+            while True:
+                with lock:
+                    if box['done']:
+                        break
+                n += 1
+            t.join()
+            return n
+
+        return fn
+
+    a = run_sim(scenario(False), {'kind': 'default'}, max_steps=300_000)
+    assert a.verdict is None and a.result > 1000, (a.verdict, a.result)
+    b = run_sim(scenario(True), {'kind': 'default'}, max_steps=300_000)
+    assert b.verdict == 'livelock', b.verdict
+    return f'polling loop ended after {a.result} polls once the sleeper woke; endless polling -> {b.verdict}'
+
+
 def main():
     ok = True
-    for t in (test_wasted_notify, test_queue_fifo_exhaustive, test_lock_inversion, test_lost_update, test_virtual_time_exact, test_replay_determinism):
+    for t in (test_spinning, test_wasted_notify, test_queue_fifo_exhaustive, test_lock_inversion, test_lost_update, test_virtual_time_exact, test_replay_determinism):
         try:
             print(f'selftest {t.__name__}: ok - {t()}')
         except BaseException as e:
